@@ -79,6 +79,14 @@ def st_value(st, s):
         val = v in ('true', '1')
     elif k == 'any':
         val = v
+    elif k == 'date':
+        val = date_value(v)
+        if val is None:
+            return False, None
+    elif k == 'QName':
+        val = qname_value(v)
+        if val is None:
+            return False, None
     else:
         raise ValueError(k)
     t = st
@@ -93,6 +101,51 @@ def st_value(st, s):
                 return False, None
         t = t.base
     return True, val
+
+
+_date_re = re.compile(r'^(-?)(\d{4,})-(\d\d)-(\d\d)(Z|[+-]\d\d:\d\d)?$')
+
+
+def date_value(v):
+    """xs:date value for identity comparison: dates with a time zone are points on the UTC time line (start instant),
+    dates without are local; the two kinds are never equal (only years 0001..9999, which is all the workloads use)"""
+    m = _date_re.match(v)
+    if not m or m.group(1) or len(m.group(2)) != 4:
+        return None
+    y, mo, d = int(m.group(2)), int(m.group(3)), int(m.group(4))
+    if y < 1 or not (1 <= mo <= 12):
+        return None
+    dim = [31, 29 if (y % 4 == 0 and (y % 100 != 0 or y % 400 == 0)) else 28, 31, 30, 31, 30, 31, 31, 30, 31, 30, 31][mo - 1]
+    if not (1 <= d <= dim):
+        return None
+    import datetime
+    days = datetime.date(y, mo, d).toordinal()
+    tz = m.group(5)
+    if tz is None:
+        return ('local', days)
+    if tz == 'Z':
+        off = 0
+    else:
+        hh, mm = int(tz[1:3]), int(tz[4:6])
+        if hh > 14 or mm > 59 or (hh == 14 and mm != 0):
+            return None
+        off = (hh * 60 + mm) * (1 if tz[0] == '+' else -1)
+    return ('utc', days * 1440 - off)
+
+
+QNAME_PREFIXES = {'t': T, 't2': T, 'u': U, 'o': O}
+
+
+def qname_value(v):
+    """xs:QName value under the fixed namespace bindings every generated instance declares on its root"""
+    if ':' in v:
+        p, l = v.split(':', 1)
+        if p not in QNAME_PREFIXES or not re.match(r'^[A-Za-z_][A-Za-z0-9_.-]*$', l):
+            return None
+        return (QNAME_PREFIXES[p], l)
+    if not re.match(r'^[A-Za-z_][A-Za-z0-9_.-]*$', v):
+        return None
+    return (None, v)
 
 
 # =====================================================================================================================
@@ -319,6 +372,8 @@ def _mk_builtins():
     lg = add('long', i, lo=Decimal(-2 ** 63), hi=Decimal(2 ** 63 - 1))
     add('int', lg, lo=Decimal(-2 ** 31), hi=Decimal(2 ** 31 - 1))
     add('boolean', ANYSIMPLE, kind='boolean', ws='collapse')
+    add('date', ANYSIMPLE, kind='date', ws='collapse')
+    add('QName', ANYSIMPLE, kind='QName', ws='collapse')
 
 
 _mk_builtins()
@@ -1006,6 +1061,7 @@ def ns_decls(schema):
     s = ' xmlns:xsi="%s"' % XSI
     for ns in (T, U, O, XS):
         s += ' xmlns:%s="%s"' % (PFX[ns], ns)
+    s += ' xmlns:t2="%s"' % T
     if schema.tns is None:
         s += ' xsi:noNamespaceSchemaLocation="s.xsd"'
     else:
@@ -1037,7 +1093,7 @@ def batch_document(schema, wname, instances):
 # =====================================================================================================================
 class Node:
     """expected post-validation view of one element"""
-    __slots__ = ('ns', 'local', 'type', 'attrs', 'text', 'kids', 'assessed', 'simple_text', 'adefault', 'feats', 'rules', 'el', 'ctype')
+    __slots__ = ('ns', 'local', 'type', 'attrs', 'text', 'kids', 'assessed', 'simple_text', 'adefault', 'feats', 'rules', 'el', 'ctype', 'decl', 'nilled')
 
     def __init__(self, ns, local):
         self.ns, self.local = ns, local
@@ -1051,6 +1107,8 @@ class Node:
         self.rules = []           # rules violated at this element
         self.el = None
         self.ctype = None
+        self.decl = None
+        self.nilled = False
 
 
 class Result:
@@ -1114,6 +1172,7 @@ class Validator:
         """mode: 'strict' | 'lax' (declaration may be None) | 'skip'"""
         node = Node(el.ns, el.local)
         node.el = el
+        node.decl = decl
         F = _Feats(self.feats, node)
         errs = _Errs(errs, node)
         if mode == 'skip':
@@ -1199,6 +1258,7 @@ class Validator:
         vc = None
         if decl is not None:
             vc = ('fixed', decl.fixed) if decl.fixed is not None else ('default', decl.default) if decl.default is not None else None
+        node.nilled = nilled
         if nilled:
             if vc is not None:
                 F.add('nil+element-' + vc[0])
@@ -1227,8 +1287,10 @@ class Validator:
             if has_comment:
                 F.add('comment-in-simple-content')
             if not has_chars and vc is not None:
-                node.text = vc[1]                                        # cvc-elt.5.1: the default is used
+                node.text = vc[1]                                        # cvc-elt.5.1: the default is used ...
                 F.add('element-%s-applied' % vc[0])
+                if not st_value(simple, vc[1])[0]:
+                    errs.append('default-invalid-for-xsi-type')          # ... and must be valid for the actual (xsi:type) type, 5.1.1/5.1.2
             else:
                 ok, val = st_value(simple, text)
                 if text != ws_apply('collapse', text) and not ws_only:
@@ -1238,6 +1300,8 @@ class Validator:
                 elif vc is not None and vc[0] == 'fixed':
                     if val != st_value(simple, vc[1])[1]:
                         errs.append('fixed-value-mismatch')              # cvc-elt.5.2.2.2
+                    elif text != vc[1]:
+                        F.add('element-fixed:lexically-different')
                 node.text = text
             return node
         # complex content
@@ -1340,6 +1404,8 @@ class Validator:
                     errs.append('attribute-value-invalid')               # cvc-attribute.3
                 elif u.fixed is not None and val != st_value(u.decl.type, u.fixed)[1]:
                     errs.append('attribute-fixed-mismatch')              # cvc-au
+                elif u.fixed is not None and v != u.fixed:
+                    F.add('attribute-fixed:lexically-different')
                 continue
             if not t.base.simple and t.base is not ANYTYPE and t.method == 'restriction' and key in t.base.attrs:
                 F.add('prohibited-attribute-present')
@@ -1604,7 +1670,7 @@ def mutate(schema, builder, root, r, kind=None):
             return None
         e = r.choice(c)
         i = r.randrange(len(e.attrs))
-        e.attrs[i] = (e.attrs[i][0], e.attrs[i][1], r.choice(['!', '', 'red', '12', ' 7 ', 'F1', 'true']))
+        e.attrs[i] = (e.attrs[i][0], e.attrs[i][1], r.choice(['!', '', 'red', '12', ' 7 ', 'F1', 'true', '+4', '04', ' F1 ', ' 4']))
     elif kind in ('drop-child', 'dup-child', 'swap-children', 'rename-child', 'flip-ns'):
         c = [x for x in els if x.elems()]
         if not c:
@@ -1653,7 +1719,7 @@ def mutate(schema, builder, root, r, kind=None):
     elif kind == 'corrupt-text':
         c = [x for x in els if not x.elems()]
         e = r.choice(c)
-        e.kids = [r.choice(['!', 'red', '12', ' 7 ', 'blue', 'F1', '1.5', 'true'])]
+        e.kids = [r.choice(['!', 'red', '12', ' 7 ', 'blue', 'F1', '1.5', 'true', '+7', '07', ' x', '+3', '1'])]
     elif kind == 'empty-content':
         e.kids = []
     else:
